@@ -13,7 +13,7 @@ EXPLANATION = (
     'AX(:,i) - value(i) * BX(:,i) for all i < k after the last change of X / AX / BX / values (no other writer of the residuals '
     'lies between the recomputation and the test); the constructor starts with a non-success status; every Rayleigh-Ritz solve is '
     'followed by the ascending (SmallestAlge) sort of the pairs before they are used; the convergence test counts a column as '
-    'converged only if sqrt(sum of squares) < tolerance. Does NOT decide accuracy, B-orthonormality levels, or that the k smallest '
+    'converged only if sqrt(sum of squares) < tolerance. Every path through compute() assigns the status (the status at exit belongs to this call); the convergence function changes its count only under the norm criterion and reads no mutable solver field. Does NOT decide accuracy, B-orthonormality levels, or that the k smallest '
     'eigenvalues are found.')
 ASSUMPTIONS = ['Eigen sparse products are exact up to rounding']
 
@@ -266,6 +266,16 @@ def success_discipline(ctx, X, RES, rule='success-only-after-fresh-residual-test
                         problems.append('the residuals tested can be stale or preconditioned: ' + ' -> '.join(hit3[-2:]))
         ctx.check(not problems, rule, 'LOBPCGSolver::compute#success%d' % (k + 1), comp.qname,
                   'Success only when the convergence test on freshly recomputed residuals returned 0' if not problems else '; '.join(problems))
+    # the status at exit is one assigned by THIS call: every path through compute() assigns the status field (compute() may be
+    # called again on the same object -- X is a member and the next call continues from it -- and a Success left behind by an
+    # earlier call must not survive a call whose own final test failed)
+    assigns = set(x['id'] for x in comp.walk() if x['k'] in ('BinaryOperator', 'CXXOperatorCallExpr') and x.get('op') == '=' and
+                  sym(comp, x, inline=False)[1] == ('F', info))
+    hit = paths.search(comp, [], stop=lambda n: n['id'] in assigns, target=lambda n: False, include_entry=True, exit_is_target=lambda b: True, normal_only=True)
+    ctx.check(hit is None, rule, 'LOBPCGSolver::compute#status-of-this-call', comp.qname,
+              'every path through compute() assigns the status (%d assignments)' % len(assigns) if hit is None else
+              'a path through compute() assigns no status: info() keeps the value an earlier compute() on the same object left behind, so a call whose final residual '
+              'test failed can still report Success', path=hit)
     # constructor starts non-success
     ctor = [f for f in ctx.F.concrete() if f.cls == 'Spectra::LOBPCGSolver' and f.d.get('ctor')]
     for c in ctor:
@@ -292,6 +302,32 @@ def success_discipline(ctx, X, RES, rule='success-only-after-fresh-residual-test
                         x.get('op') in ('=', '+=') and sym(cc, x, inline=False)[1] == lhs]
                 if any('squaredNorm' in s_ or '*' in s_ for s_ in srcs) or 'squaredNorm' in txt:
                     unit = ('squared', c0[2][1])
+    # the verdict is a function of the residuals and the tolerance handed over by THIS call alone: every change of the
+    # returned count lies under the norm criterion, and the function reads no mutable state of the solver object
+    # (a column "locked" by an earlier iteration or an earlier compute() must not be counted without looking at its residual)
+    rets = [sym(cc, r['value'], inline=False) for r in cc.walk() if r['k'] == 'ReturnStmt' and r.get('value', -1) >= 0]
+    crit = [i for i in cc.walk() if i['k'] == 'IfStmt' and sym(cc, i['cond'], inline=False)[0] == '<' and sym(cc, i['cond'], inline=False)[2][0] == 'P']
+    if len(set(rets)) == 1 and rets[0][0] == 'L' and len(crit) == 1:
+        cnt = rets[0]
+        stray = []
+        for x in cc.walk():
+            w = None
+            if x['k'] == 'UnaryOperator' and x.get('op') in ('--', '++'):
+                w = sym(cc, x['c'][0], inline=False)
+            elif x['k'] in ('BinaryOperator', 'CompoundAssignOperator') and x.get('op') in ('=', '-=', '+='):
+                w = sym(cc, x['c'][0], inline=False)
+            if w == cnt and not cc.within(x, crit[0]['then']):
+                stray.append('%s at %s' % (cc.s(x)[:30], cc.loc(x)))
+        rec_ = [r for r in ctx.F.records.values() if r['qname'] == cc.record and not r['dep']][0]
+        const_f = set(f['name'] for f in rec_['fields'] if f.get('const'))
+        state = sorted(set(p_[0] for p_ in ctx.E.may_read(cc) if p_ and p_[0] not in const_f and not p_[0].startswith('%')))
+        ctx.check(not stray and not state, rule, 'LOBPCGSolver::checkConvergence_getBlocksize#verdict', cc.qname,
+                  'the returned count changes only under the norm criterion and the function reads no mutable field of the solver' if not stray and not state else
+                  '; '.join((['the returned count is also changed outside the norm criterion: ' + ', '.join(stray)] if stray else []) +
+                            (['the verdict depends on solver state %s that survives iterations and compute() calls' % state] if state else [])) +
+                  ': a column can be counted as converged without its current residual being tested, so Success can be reported with residual norms above the tolerance of this call')
+    else:
+        raise AnalysisBroken('LOBPCG convergence function: returned count / criterion not identified (%s, %d criteria)' % (sorted(set(map(show, rets))), len(crit)))
     if unit is None:
         ctx.fail(rule, 'LOBPCGSolver::checkConvergence_getBlocksize', cc.qname, 'convergence criterion not recognised (neither norm < t nor squared norm < t)')
     else:
